@@ -188,6 +188,9 @@ def cases(g):
     yield 'minimum', lambda np: np.minimum(np.array(A), B)
     yield 'maximum', lambda np: np.maximum(np.array(A), np.array(B))
     yield 'clip', lambda np: np.clip(np.array(A), -1, 2)
+    if kind in 'fi':
+        yield 'isclose', lambda np: np.isclose(np.array(A), B)
+        yield 'isclose.near', lambda np: (np.isclose(np.array([2000.0, 1.0, 0.0, 1e-9]), np.array([1999.99, 1.00002, 1e-9, 0.0])), np.allclose(np.array(A, dtype=float), np.array(A, dtype=float) * (1 + 1e-7)))
     yield 'mod', lambda np: np.mod(np.array(A, dtype=int) if kind != 'f' else np.array([5, -3, 4]), 3)
     yield 'sign', lambda np: np.sign(np.array(A, dtype=float))
     yield 'count_nonzero', lambda np: np.count_nonzero(np.array(A), axis=axn)
